@@ -35,3 +35,19 @@ def solve(pv, case, cap=200000, keep=True, explicit=True):
     with Trace(pv, cap=cap, keep=keep) as tr:
         out = call(pv.calculate_partial_fluxes, **solver_kwargs(case, explicit))
     return out, tr
+
+
+def legit_exit_flip(evals_a, evals_b, precision, complement=False):
+    """Two runs that should be twins used a different number of driving-force evaluations.  On correct code this can only
+    happen when the step size at the decisive iteration sits within rounding of the requested precision (the loop exit
+    flipped on a last-bit difference).  Returns True in that case, False when the stopping decisions differ although the
+    step was clearly on one side of the threshold (an asymmetric / input-dependent stopping rule)."""
+    ya = [e[0] for e in evals_a if e[0] is not None]
+    yb = [(1.0 - e[0]) if complement else e[0] for e in evals_b if e[0] is not None]
+    n = min(len(ya), len(yb))
+    if n < 2 or len(ya) == len(yb):
+        return True
+    da = abs(ya[n - 1] - ya[n - 2])
+    db = abs(yb[n - 1] - yb[n - 2])
+    tie = 1e-6 * precision
+    return abs(da - precision) <= tie and abs(db - precision) <= tie
